@@ -608,6 +608,10 @@ func c03Run(c *core.Ctx) {
 		"new Proxy({}, {get: function(){ throw 'x' }})", "({get a(){ throw 1 }})", "({toJSON: function(){ throw 2 }})", "new Uint8Array(4)", "new Map([[1,2]])", "new Set([1])",
 		"/re/g", "new Error('e')", "[1,,3]", "Object.create(null)", "(function(){ return arguments })(1,2)", "new Boolean(false)", "this", "JSON", "Math",
 		"[NaN, Infinity, -0, undefined, null]", "({a: undefined, b: NaN})", "'\\ud800'", "String.fromCharCode(0)", "1e400", "-1e400", "new Array(5000000)",
+		// odd THROWN values: getting the text of the error runs script code again
+		"throw {toString: function(){ return 'late ' + typeof zz }}", "throw {toString: function(){ throw 1 }}", "throw {toString: function(){ return {} }, valueOf: function(){ return {} }}",
+		"throw Object.create(null)", "throw {toString: 5, valueOf: 5}", "throw new Proxy({}, {get: function(){ throw 2 }})", "var e = new Error('x'); e.toString = function(){ throw 3 }; throw e",
+		"var e = new Error('x'); Object.defineProperty(e, 'message', {get: function(){ throw 4 }}); throw e", "throw Symbol('s')", "throw {get message(){ throw 5 }}", "throw null", "throw undefined", "throw [1,[2]]",
 	}
 	for _, js := range oddJS {
 		inner := gd{"custom_func": gd{"name": "javascript", "ignore_error": false, "args": []interface{}{gd{"const": js}}}}
